@@ -15,9 +15,13 @@ class C03(LedgerCheck):
             "transfer, lock, unlock, bridge transfer, ICS-20 withdrawal, rollup data, validator update, fee change, fee-asset change, "
             "relayer change, sudo / ibc-sudo change, init bridge, bridge sudo change; nonces relative to the signer's current nonce "
             "(+0 valid, gapped, stale), replays of earlier transactions, bundles whose action at index i (every i) passes construction "
-            "and fails at execution (insufficient funds / credit overflow / event id reused inside the bundle) after actions with visible "
-            "effects; 15% adversarial cases (random signers, 35% bad nonces). non-trivial = >= 3 transactions took effect and >= 1 "
-            "failed or was refused; distinct = distinct script text")
+            "and fails at execution (insufficient funds / credit overflow / event id reused inside the bundle / a failing IbcRelay "
+            "message signed by an IBC relayer: fatal before Blackburn, non-fatal = included with an error code afterwards) after actions "
+            "with visible effects; relay scenarios (such bundles alone and mixed with ordinary, dropped and relayer-removing transactions "
+            "in one block, executed one by one and through finalize_block); nonce-edge scenarios (`setnonce` puts an account at "
+            "u32::MAX-1 / u32::MAX: one more execution, then every transaction incl. replays in later blocks must fail); fee-asset "
+            "changes between payments of one block; 15% adversarial cases (random signers, 35% bad nonces). non-trivial = >= 3 "
+            "transactions took effect and >= 1 failed or was refused; distinct = distinct script text")
 
     def check(self, tr):
         fails = []
@@ -29,13 +33,15 @@ class C03(LedgerCheck):
                 if e["status"] == "err" and e.get("cls") == "noblock":
                     continue
                 if e["status"] == "err":
-                    # atomicity: a failing transaction leaves no trace
+                    # atomicity: a failing transaction leaves no trace - whether it is dropped from the block (fatal
+                    # error) or stays in it with an error result (non-fatal error, `included=1`)
+                    how = "%s, non-fatal: included in the block" % e["cls"] if e.get("included") else e["cls"]
                     if e.get("unchanged") != "true":
                         fails.append("atomicity: failed tx %s (%s) changed the raw state / block fees / cached deposits: %s"
-                                     % (e["id"], e["cls"], e["line"]))
+                                     % (e["id"], how, e["line"]))
                     if pre is not None and post is not None and not pre.same_as(post):
                         diff = [l for l in post.lines if l not in pre.lines][:4]
-                        fails.append("atomicity: state dump differs after failed tx %s (%s): %s" % (e["id"], e["cls"], diff))
+                        fails.append("atomicity: state dump differs after failed tx %s (%s): %s" % (e["id"], how, diff))
                 elif e["status"] in ("constructerr", "unknown", "err=noblock"):
                     if pre is not None and post is not None and not pre.same_as(post):
                         fails.append("atomicity: state dump differs after refused tx %s" % e["id"])
@@ -68,17 +74,27 @@ class C03(LedgerCheck):
                         fails.append("nonce: after the block the nonce of %s is %d, the transactions that took effect account for %d"
                                      % (a, post.nonce.get(a, 0), expect.get(a, 0)))
                 if not any(st == "code" and x == "0" for _, st, x, _ in e["results"]):
-                    # nothing took effect: only the fee recipient / height may differ -> compare ledgers
+                    # nothing took effect (every tx was refused, dropped or included with an error code): only the
+                    # height may differ -> compare ledgers, and no deposit may be published
+                    failed = ",".join("%s:%s=%s" % (tid, st, x) for tid, st, x, _ in e["results"]) or "no txs"
                     for key in ("bal", "nonce", "escrow", "bridge", "wevent"):
                         if getattr(pre, key) != getattr(post, key):
-                            fails.append("atomicity: block without any successful tx changed %s" % key)
+                            fails.append("atomicity: block without any successful tx changed %s (%s)" % (key, failed))
+                    if i + 1 < len(ev) and ev[i + 1]["k"] == "bdeposits" and ev[i + 1]["list"]:
+                        fails.append("atomicity: block without any successful tx published deposits (%s)" % failed)
             elif e["k"] == "block" and not e["ok"]:
                 pre, post = tr.dump_before(i), tr.dump_after(i)
                 if pre is not None and post is not None and not pre.same_as(post):
                     fails.append("atomicity: a block that failed to finalize changed the state")
-        # at most once over the whole (committed) history
+        # at most once over the whole (committed) history.  `setnonce` is a write of the harness that no chain
+        # operation can do: it starts a new history for that account.
         seen = {}
-        for tx in tr.successful_txs():
+        marks = [(i, None, e["args"][0]) for i, e in enumerate(ev) if e["k"] == "god" and e["op"] == "setnonce" and e["args"]]
+        marks += [(i, tx, None) for i, tx in tr.successful_txs(with_pos=True)]
+        for _, tx, reset in sorted(marks, key=lambda m: (m[0], m[1] is not None)):
+            if tx is None:
+                seen = {k: v for k, v in seen.items() if k[0] != reset}
+                continue
             key = (tx["signer"], tx["nonce"])
             if key in seen:
                 fails.append("replay: signer %s nonce %d took effect twice (txs %s and %s)" % (key[0], key[1], seen[key], tx["id"]))
